@@ -40,6 +40,11 @@ func (r *runner) root() {
 		r.endAt = r.now()
 		return
 	}
+	if r.h.CancelStalled != nil {
+		r.rootCancelStalled()
+		r.endAt = r.now()
+		return
+	}
 	for _, sp := range r.h.Sessions {
 		r.newSession(sp, false, nil)
 	}
